@@ -133,6 +133,8 @@ def check_tree(res, verdict, inv, umask=0o022, t_start_ns=None, fault_exempt=(),
             continue  # the same inode is reachable through a destination path (hard link): overwriting it is legal
         q = post.get(p)
         under_dest = dest_n is not None and (p == dest_n or p.startswith(dest_n + "/")) and not is_source
+        if verdict.kind == "undefined" and under_dest:
+            continue  # outside the model domain: nothing is claimed about the destination (sources and bystanders still are)
         if under_dest:
             prop, cls = ("C08", "existing-entry-altered") if fl.get("n") else ("C02", "unmapped-entry-altered")
         else:
